@@ -58,6 +58,11 @@ type c08Spec struct {
 // c08Fresh: zero receivers by Go type (also used by the child process).
 var c08Fresh = map[string]func() c08Obj{
 	"structs.Vector[uint64]":                func() c08Obj { return new(structs.Vector[uint64]) },
+	"structs.Vector[uint32]":                func() c08Obj { return new(structs.Vector[uint32]) },
+	"structs.Vector[uint16]":                func() c08Obj { return new(structs.Vector[uint16]) },
+	"structs.Vector[uint8]":                 func() c08Obj { return new(structs.Vector[uint8]) },
+	"structs.Matrix[uint64]":                func() c08Obj { return new(structs.Matrix[uint64]) },
+	"structs.Map[uint64,ring.Poly]":         func() c08Obj { return new(structs.Map[uint64, ring.Poly]) },
 	"ring.Poly":                             func() c08Obj { return new(ring.Poly) },
 	"ringqp.Poly":                           func() c08Obj { return new(ringqp.Poly) },
 	"rlwe.PlaintextMetaData":                func() c08Obj { return new(rlwe.PlaintextMetaData) },
@@ -240,6 +245,53 @@ func (g *c08Gen) specs() []c08Spec {
 			v := make(structs.Vector[uint64], n)
 			g.fillVec(v)
 			return &v
+		})
+	}
+	// the other element widths of structs.Vector (buffer.ReadUint8/16/32Slice), Matrix and Map
+	for _, n := range []int{0, 1, 7, 4096, 5000} {
+		n := n
+		add("vecu32", "structs.Vector[uint32]", fmt.Sprintf("len%d", n), func() c08Obj {
+			v := make(structs.Vector[uint32], n)
+			for i := range v {
+				v[i] = uint32(g.rng.U64())
+			}
+			return &v
+		})
+		add("vecu16", "structs.Vector[uint16]", fmt.Sprintf("len%d", n), func() c08Obj {
+			v := make(structs.Vector[uint16], n)
+			for i := range v {
+				v[i] = uint16(g.rng.U64())
+			}
+			return &v
+		})
+		add("vecu8", "structs.Vector[uint8]", fmt.Sprintf("len%d", n), func() c08Obj {
+			v := make(structs.Vector[uint8], n)
+			for i := range v {
+				v[i] = uint8(g.rng.U64())
+			}
+			return &v
+		})
+	}
+	for _, sh := range [][2]int{{0, 0}, {1, 16}, {3, 5}, {2, 600}} {
+		sh := sh
+		add("poly", "structs.Matrix[uint64]", fmt.Sprintf("%dx%d", sh[0], sh[1]), func() c08Obj {
+			m := make(structs.Matrix[uint64], sh[0])
+			for i := range m {
+				m[i] = make([]uint64, sh[1])
+				g.fillVec(m[i])
+			}
+			return &m
+		})
+	}
+	for _, keys := range [][]uint64{{}, {7}, {1 << 63, 3, 5}} {
+		keys := keys
+		add("mappoly", "structs.Map[uint64,ring.Poly]", fmt.Sprintf("keys%d", len(keys)), func() c08Obj {
+			m := structs.Map[uint64, ring.Poly]{}
+			for i, k := range keys {
+				p := g.newPoly(16, i%2)
+				m[k] = &p
+			}
+			return &m
 		})
 	}
 	// ring.Poly
@@ -603,6 +655,9 @@ func c08LengthKey(tag string) string {
 // c08MalformedKey: c08Key for a decode of malformed input (truncated or corrupted) that ended in
 // class cls instead of "err".
 func c08MalformedKey(s c08Spec, entry, cls string, f *c08Field) string {
+	if s.ty == "vecu8" && cls == "ok" {
+		return c08KUint8Slice
+	}
 	tag := ""
 	if f != nil {
 		tag = f.tag
@@ -681,6 +736,13 @@ func genC08(c *Ctx) {
 			// --- ties
 			c.Emit("enc "+s.ty+" "+vs, Hex(enc))
 			c.Emit("size "+s.ty+" "+vs, I(val.BinarySize()))
+			c.Emit("marshal "+s.ty+" "+vs, func() string {
+				var b []byte
+				if cls := c08Call(func() (err error) { b, err = val.MarshalBinary(); return }); cls != "ok" {
+					return cls
+				}
+				return Hex(b)
+			}())
 			g.tieDec(s, enc)
 			// --- probes
 			g.probeSizeExact(s, id, val, enc, n)
@@ -706,6 +768,8 @@ func genC08(c *Ctx) {
 		}
 	}
 	g.probeBackToBack(specs, byType)
+	g.tieFields()
+	g.probeBufferHelpers()
 	g.probeBufioBoundary()
 	g.probeMetaFields()
 	g.probeByteFieldRange()
@@ -732,6 +796,18 @@ func (g *c08Gen) tieDec(s c08Spec, enc []byte) {
 	// with trailing bytes: exact consumption
 	tail := append(append([]byte(nil), enc...), 0xde, 0xad, 0xbe, 0xef, 1, 2, 3, 4, 5, 6, 7, 8)
 	c.Emit("dec "+s.ty+" "+Hex(tail), dec("ReadFrom(buffer.Buffer)", tail))
+	if len(enc) <= 4096 {
+		// the short-count model decoder against the real decoder on a transport that returns
+		// exactly these short counts
+		szs := []int{1 + g.rng.Intn(5), 1 + g.rng.Intn(300), 1, 1 + g.rng.Intn(17)}
+		recv := c08Fresh[s.goType]()
+		n, cls := c08Read(recv, "ReadFrom(bufio.Reader over chunked)", enc, szs)
+		out := cls
+		if cls == "ok" {
+			out = "ok " + I(int(n)) + " " + c08RenderSafe(recv)
+		}
+		c.Emit("decs "+s.ty+" "+IVec(szs)+" "+Hex(enc), out)
+	}
 	if len(enc) <= 4096 {
 		// the chunked model decoder is tied to the real decoder on the unfragmented stream
 		sizes := []int{1 + g.rng.Intn(7), g.rng.Intn(3), 1 + g.rng.Intn(40)}
@@ -798,7 +874,17 @@ var c08ReadEntries = []string{"ReadFrom(bufio.Reader)", "ReadFrom(buffer.Buffer)
 
 // checkDecoded judges a decode of a VALID encoding: returns ("","") when recv equals the
 // original; else a detail and the finding c08Key.
+const c08KUint8Slice = "C08/buffer.ReadUint8Slice/single-Read-call-short-read"
+
 func (g *c08Gen) checkDecoded(s c08Spec, entry string, recv c08Obj, n int64, cls string, want *c08Gv, wantLen int, needN bool, fragmented bool) (detail, k string) {
+	detail, k = g.checkDecoded0(s, entry, recv, n, cls, want, wantLen, needN, fragmented)
+	if detail != "" && s.ty == "vecu8" {
+		k = c08KUint8Slice // the only reader of a byte slice: one Read call, count not checked
+	}
+	return
+}
+
+func (g *c08Gen) checkDecoded0(s c08Spec, entry string, recv c08Obj, n int64, cls string, want *c08Gv, wantLen int, needN bool, fragmented bool) (detail, k string) {
 	if cls != "ok" {
 		detail = "outcome " + cls + " on a valid encoding"
 		switch {
@@ -1224,6 +1310,8 @@ func (g *c08Gen) probeReaderSizes(s c08Spec, id string, tree *c08Gv, enc []byte)
 			case cls == "err" && sz < 64 && c08HasEvk[s.ty]:
 				// the 32-byte seed is fetched with Peek(32): needs a buffer of at least 32 bytes
 				k = "C08/buffer.Read/block-larger-than-bufio-buffer"
+			case s.ty == "vecu8":
+				k = c08KUint8Slice
 			case cls == "ok":
 				// decoded, but to another value: not the reader's arithmetic (see the other probes)
 				k = c08Key(s.goType, "ReadFrom(bufio.ReaderSize)", "value-differs")
@@ -1294,7 +1382,7 @@ func (g *c08Gen) probeBackToBack(specs []c08Spec, byType map[string][]int) {
 			var lens []int
 			var used []c08Spec
 			ty := specs[idx[0]].ty
-			okBuild := true
+			okBuild, okSize := true, true
 			labels := ""
 			for j := 0; j < k; j++ {
 				s := specs[idx[(rep+j*2)%len(idx)]]
@@ -1315,6 +1403,9 @@ func (g *c08Gen) probeBackToBack(specs []c08Spec, byType map[string][]int) {
 					break
 				}
 				lens = append(lens, stream.Len()-before)
+				if bs := val.BinarySize(); bs != stream.Len()-before {
+					okSize = false
+				}
 				want = append(want, c08Render(val))
 				used = append(used, s)
 				labels += "," + s.label
@@ -1322,12 +1413,16 @@ func (g *c08Gen) probeBackToBack(specs []c08Spec, byType map[string][]int) {
 			if !okBuild {
 				continue
 			}
+			objBytes := stream.Len()
+			trailer := []byte("\x00\x01TRAILER-after-the-last-object\xff\xfe")
+			stream.Write(trailer)
 			data := append([]byte(nil), stream.Bytes()...)
 			id := t + " [" + strings.TrimPrefix(labels, ",") + "]"
+			_ = okSize
 			// tie: the model decodes the same k objects from the stream as the real decoder
-			if len(data) <= 40000 {
-				c.Emit("many "+ty+" "+I(k)+" "+Hex(data), func() string {
-					rd := buffer.NewBuffer(data)
+			if objBytes <= 40000 {
+				c.Emit("many "+ty+" "+I(k)+" "+Hex(data[:objBytes]), func() string {
+					rd := buffer.NewBuffer(data[:objBytes])
 					var got []string
 					total := 0
 					for j := 0; j < k; j++ {
@@ -1361,6 +1456,17 @@ func (g *c08Gen) probeBackToBack(specs []c08Spec, byType map[string][]int) {
 					detail, kk = g.checkDecoded(used[j], "ReadFrom", recv, n, cls, want[j], lens[j], true, r.fragmented)
 					if detail != "" {
 						detail = fmt.Sprintf("object %d of %d: %s", j+1, k, detail)
+					}
+				}
+				if detail == "" {
+					// exact position: what the reader yields next is the trailer, all of it, nothing else
+					rest, _ := io.ReadAll(reader)
+					if !bytes.Equal(rest, trailer) {
+						detail = fmt.Sprintf("after the %d objects the reader is not positioned at the trailer: %d bytes left, expected %d (first difference at %d)", k, len(rest), len(trailer), c08FirstDiff(rest, trailer))
+						kk = c08Key(t, "ReadFrom", "reader-position-after-object")
+					} else if !okSize {
+						detail = "BinarySize differs from the bytes written for one of the objects"
+						kk = c08Key(t, "BinarySize", "differs-from-bytes-written")
 					}
 				}
 				c.Probe("back_to_back", id+" "+r.name, kk, detail)
